@@ -186,7 +186,9 @@ func MannWhitneyUTest(x1, x2 []float64, alt LocationHypothesis) (*MannWhitneyUTe
 				// which is 1.
 				p = 1
 			} else {
-				p = dist.CDF(Usmall) * 2
+				// Cap at 1: the doubled tail can exceed it by
+				// rounding (and, with ties, outright).
+				p = math.Min(1, dist.CDF(Usmall)*2)
 			}
 
 		case LocationLess:
